@@ -60,7 +60,7 @@ pub enum SOp {
     /// to the results of the history)
     Zombie(u8),
     /// signals a process sends to itself while it blocks and unblocks them, all
-    /// with a handler installed: steps (0 block / 1 unblock / 2 raise / 3 note
+    /// with a handler installed: steps (0 block / 1 unblock / 2 raise / 4 ignore / 5 catch again / 3 note
     /// which handlers have run since the last note, signal index into TSTP TTIN
     /// CONT USR1 TERM); ends with "unblock all, note". Decides what stays
     /// pending: a SIGCONT discards pending stop signals and a stop signal a
@@ -168,11 +168,16 @@ pub fn generate(rng: &mut Rng, long: bool) -> SHist {
                     if rng.bool() {
                         steps.push((3, 0));
                     }
+                    if rng.below(3) == 0 {
+                        // ignored while pending (discarded), then caught again
+                        steps.push((4, x));
+                        steps.push((5, x));
+                    }
                     steps.push((1, x));
                     steps.push((3, 0));
                 } else {
                     for _ in 0..rng.range(2, 8) {
-                        steps.push((*rng.pick(&[0u8, 0, 1, 1, 2, 2, 2, 2, 3]), sig(rng)));
+                        steps.push((*rng.pick(&[0u8, 0, 1, 1, 2, 2, 2, 2, 3, 4, 5]), sig(rng)));
                     }
                 }
                 SOp::SigSeq(steps)
@@ -556,6 +561,12 @@ fn sigseq_virtual(sys: &yash_env::system::r#virtual::VirtualSystem, steps: &[(u8
             2 => {
                 let _ = now(child.kill(pid, Some(sig)));
             }
+            4 => {
+                child.sigaction(sig, Disposition::Ignore).ok();
+            }
+            5 => {
+                child.sigaction(sig, Disposition::Catch).ok();
+            }
             _ => note(&child),
         }
     }
@@ -625,6 +636,12 @@ fn sigseq_real(steps: &[(u8, u8)]) -> String {
                     }
                     2 => {
                         libc::kill(libc::getpid(), sig);
+                    }
+                    4 => {
+                        libc::signal(sig, libc::SIG_IGN);
+                    }
+                    5 => {
+                        libc::signal(sig, handler as extern "C" fn(libc::c_int) as libc::sighandler_t);
                     }
                     _ => note(),
                 }
